@@ -28,3 +28,37 @@ Qed.
 
 Lemma gen_eshape_is_model : gen_eshape = pinned_eshape.
 Proof. reflexivity. Qed.
+
+(* ---------------------------------------------------------------- the pool theorems, of the generated functions *)
+Theorem gen_pool_any_sequence : forall N ops c, 0 < N ->
+  gen_pool_run N (c mod N) ops = (pool_spec N c ops, (c + count_next ops) mod N).
+Proof. intros N ops c H. rewrite gen_pool_run_is_model. apply pool_run_spec; [apply pinned_pshape_ok|exact H]. Qed.
+
+Theorem gen_round_robin : forall N k i, 0 < N -> i < k ->
+  nth i (fst (gen_pool_run N 0 (repeat PNext k))) None = Some (i mod N).
+Proof. intros N k i H1 H2. rewrite gen_pool_run_is_model. apply round_robin; [apply pinned_pshape_ok|exact H1|exact H2]. Qed.
+
+Theorem gen_round_robin_distinct : forall N c, 0 < N ->
+  fst (gen_pool_run N (c mod N) (repeat PNext N)) = map (fun i => Some ((c + i) mod N)) (seq 0 N) /\
+  NoDup (map (fun i => (c + i) mod N) (seq 0 N)) /\ (forall i, (c + i) mod N < N).
+Proof.
+  intros N c H. split; [|apply consecutive_distinct; exact H].
+  rewrite gen_pool_any_sequence by exact H. cbn [fst].
+  assert (G : forall k c, pool_spec N c (repeat PNext k) = map (fun i => Some ((c + i) mod N)) (seq 0 k)).
+  { induction k as [|k IH]; intros c0; [reflexivity|]. cbn [repeat pool_spec seq map]. rewrite Nat.add_0_r. f_equal.
+    rewrite IH, <- seq_shift, map_map. apply map_ext. intros a. do 2 f_equal. lia. }
+  apply G.
+Qed.
+
+Theorem gen_hash_stable : forall N, 0 < N -> forall ops1 ops2 c1 c2 i1 i2 h,
+  nth_error ops1 i1 = Some (PHash h) -> nth_error ops2 i2 = Some (PHash h) ->
+  nth_error (fst (gen_pool_run N (c1 mod N) ops1)) i1 = Some (Some (h mod N)) /\
+  nth_error (fst (gen_pool_run N (c2 mod N) ops2)) i2 = Some (Some (h mod N)).
+Proof.
+  intros N H ops1 ops2 c1 c2 i1 i2 h H1 H2. rewrite !gen_pool_run_is_model.
+  apply hash_stable; auto. apply pinned_pshape_ok.
+Qed.
+
+Theorem gen_empty_pool_base : forall ops next,
+  gen_pool_run 0 next ops = (map (fun _ => None) ops, next).
+Proof. intros ops next. rewrite gen_pool_run_is_model. apply pool_run_empty. apply pinned_pshape_ok. Qed.
